@@ -33,6 +33,14 @@ pub struct Shared {
 	pub k_p256: LiveKey,
 	pub issuer: Certificate,
 	pub issuer_snapshot: String,
+	// issuers that differ from `issuer` (or from each other) in exactly one component
+	pub k_ed2: LiveKey,
+	pub k_rsa2: LiveKey,
+	pub issuer_n2: Certificate, // other name, same key as `issuer`
+	pub issuer_k2: Certificate, // same name as `issuer`, other key
+	pub rsa_ca_a: Certificate,  // one name ...
+	pub rsa_ca_b: Certificate,  // ... under two RSA keys of the same size (a CA key roll-over)
+	pub k_rsa3: LiveKey,        // RSA-3072, loaded through the algorithm-detecting entry point where the build has one
 }
 
 fn key_from_file(dir: &str, name: &str, alg: &str, remote: bool) -> LiveKey {
@@ -43,9 +51,12 @@ fn key_from_file(dir: &str, name: &str, alg: &str, remote: bool) -> LiveKey {
 }
 
 pub fn write_keys(dir: &str, rng: &mut Rng) {
-	for (name, kt) in [("ked", "ed25519"), ("kp256", "p256"), ("krsa", "rsa2048")] {
+	for (name, kt) in [("ked", "ed25519"), ("kp256", "p256"), ("ked2", "ed25519")] {
 		let pkey = gen_pkey(kt, rng);
 		std::fs::write(format!("{}/{}.pk8", dir, name), pkey.private_key_to_pkcs8().unwrap()).unwrap();
+	}
+	for (name, f) in [("krsa", "rsa2048_a.pk8"), ("krsa2", "rsa2048_b.pk8"), ("krsa3", "rsa3072_a.pk8")] {
+		std::fs::copy(format!("{}/{}", fixture_dir(), f), format!("{}/{}.pk8", dir, name)).unwrap();
 	}
 }
 
@@ -95,6 +106,10 @@ fn cert_template(t: &str) -> Value {
 		p["serial"] = json!({"k": "auto", "b": []});
 	}
 	p["custom"] = json!([{"oid": "1.3.6.1.4.1.55555.1", "crit": false, "content": "0c0568656c6c6f"}, {"oid": "1.3.6.1.4.1.55555.2", "crit": true, "content": "0500"}]);
+	if t.ends_with("/e0") {
+		// the shortest key identifier a caller can give
+		p["kid"] = json!({"k": "pre", "b": []});
+	}
 	p
 }
 
@@ -106,7 +121,7 @@ fn crl_template(t: &str) -> Value {
 			{"serial": [1], "time": tm(2), "reason": {"k": "some", "code": 1}, "invalidity": {"k": "some", "t": tm(1)}},
 			{"serial": [0, 200], "time": tm(3), "reason": {"k": "none", "code": 0}, "invalidity": {"k": "none", "t": tm(1)}},
 			{"serial": [9, 9, 9], "time": tm(4), "reason": {"k": "some", "code": 9}, "invalidity": {"k": "none", "t": tm(1)}}],
-		"kid": kid(b, if b { "sha384" } else { "sha512" })})
+		"kid": if t.ends_with("/e0") { json!({"k": "pre", "b": []}) } else { kid(b, if b { "sha384" } else { "sha512" }) }})
 }
 
 pub fn setup(dir: &str, remote: bool) -> Shared {
@@ -117,22 +132,63 @@ pub fn setup(dir: &str, remote: bool) -> Shared {
 	ip["ku"] = json!([5, 6]);
 	let issuer = to_params(&ip).unwrap().self_signed(&k_ed.kp).unwrap();
 	let snap = shared_snapshot(&k_ed, &issuer);
-	Shared { k_ed, k_rsa, k_p256, issuer, issuer_snapshot: snap }
+	let k_ed2 = key_from_file(dir, "ked2", "ed25519", remote);
+	let k_rsa2 = key_from_file(dir, "krsa2", "rsa-sha256", remote);
+	let other_dn = json!([{"ty": "2.5.4.10", "kind": "utf8", "val": text("Another Org")}, {"ty": "2.5.4.3", "kind": "printable", "val": text("second issuer")}]);
+	let mut ip2 = issuer_desc(&other_dn, &kid(false, "sha256"));
+	ip2["ku"] = json!([5, 6]);
+	let issuer_n2 = to_params(&ip2).unwrap().self_signed(&k_ed.kp).unwrap();
+	let issuer_k2 = to_params(&ip).unwrap().self_signed(&k_ed2.kp).unwrap();
+	let rsa_dn = json!([{"ty": "2.5.4.3", "kind": "utf8", "val": text("RSA CA")}]);
+	let mut ipr = issuer_desc(&rsa_dn, &kid(false, "sha256"));
+	ipr["ku"] = json!([5, 6]);
+	let rsa_ca_a = to_params(&ipr).unwrap().self_signed(&k_rsa.kp).unwrap();
+	let rsa_ca_b = to_params(&ipr).unwrap().self_signed(&k_rsa2.kp).unwrap();
+	let k_rsa3 = {
+		let pkcs8 = std::fs::read(format!("{}/krsa3.pk8", dir)).expect("key file");
+		let pkey = openssl::pkey::PKey::private_key_from_der(&pkcs8).unwrap();
+		let info = info_from_pkey("krsa3", "rsa-sha256", &pkey, "file");
+		live_from_info(info, if remote || !cfg!(feature = "crypto") { "remote" } else { "auto-pkcs8" }).unwrap()
+	};
+	Shared { k_ed, k_rsa, k_p256, issuer, issuer_snapshot: snap, k_ed2, k_rsa2, issuer_n2, issuer_k2, rsa_ca_a, rsa_ca_b, k_rsa3 }
 }
 
 fn shared_snapshot(k: &LiveKey, issuer: &Certificate) -> String {
 	format!("{}|{}|{}|{}", hex(k.kp.public_key_raw()), alg_name(k.kp.algorithm()), sha_hex(issuer.der()), params_view(issuer.params()))
 }
 
+/// the issuer certificate and signing key of an issued-certificate / CRL template
+fn issuer_of<'a>(t: &str, sh: &'a Shared) -> (&'a Certificate, &'a LiveKey) {
+	match t.rsplit('/').next().unwrap() {
+		"n2" => (&sh.issuer_n2, &sh.k_ed),
+		"k2" => (&sh.issuer_k2, &sh.k_ed2),
+		"ra" => (&sh.rsa_ca_a, &sh.k_rsa),
+		"rb" => (&sh.rsa_ca_b, &sh.k_rsa2),
+		_ => (&sh.issuer, &sh.k_ed),
+	}
+}
+
 /// one observed generation call
 pub fn gen(t: &str, sh: &Shared, tid: u64, pid: u32, phase: &str, case: &str, events: &mut Vec<Value>) {
+	gen_opt(t, sh, tid, pid, phase, case, events, true)
+}
+
+pub fn gen_opt(t: &str, sh: &Shared, tid: u64, pid: u32, phase: &str, case: &str, events: &mut Vec<Value>, verify: bool) {
 	if t.ends_with("/2") && !cfg!(feature = "crypto") {
 		return;
 	}
 	let kind = t.split('/').next().unwrap();
+	let mut signer_spki: Vec<u8> = Vec::new();
 	let (der, params_ok, det): (Result<Vec<u8>, String>, bool, bool) = match kind {
 		"cert-self" => {
-			let key = if t.ends_with("/2") { &sh.k_rsa } else { &sh.k_ed };
+			let key = if t.ends_with("/r3") {
+				&sh.k_rsa3
+			} else if t.ends_with("/2") {
+				&sh.k_rsa
+			} else {
+				&sh.k_ed
+			};
+			signer_spki = key.info.spki.clone();
 			let p = to_params(&cert_template(t)).unwrap();
 			let before = p.clone();
 			match guarded(|| p.self_signed(&key.kp)) {
@@ -145,7 +201,9 @@ pub fn gen(t: &str, sh: &Shared, tid: u64, pid: u32, phase: &str, case: &str, ev
 			let subj = if t.ends_with("/2") { &sh.k_ed } else { &sh.k_p256 };
 			let p = to_params(&cert_template(t)).unwrap();
 			let before = p.clone();
-			match guarded(|| p.signed_by(&subj.kp, &sh.issuer, &sh.k_ed.kp)) {
+			let (iss, ikey) = issuer_of(t, sh);
+			signer_spki = ikey.info.spki.clone();
+			match guarded(|| p.signed_by(&subj.kp, iss, &ikey.kp)) {
 				Outcome::Ok(c) => (Ok(c.der().to_vec()), c.params() == &before, true),
 				Outcome::Err(e) => (Err(e), true, true),
 				Outcome::Panic(m) => (Err(format!("panic {}", m)), true, true),
@@ -153,6 +211,7 @@ pub fn gen(t: &str, sh: &Shared, tid: u64, pid: u32, phase: &str, case: &str, ev
 		},
 		"csr" => {
 			let key = if t.ends_with("/2") { &sh.k_p256 } else { &sh.k_ed };
+			signer_spki = key.info.spki.clone();
 			let p = to_params(&cert_template(t)).unwrap();
 			let before = p.clone();
 			let attrs = vec![
@@ -167,7 +226,9 @@ pub fn gen(t: &str, sh: &Shared, tid: u64, pid: u32, phase: &str, case: &str, ev
 		},
 		_ => {
 			let p = to_crl_params(&crl_template(t)).unwrap();
-			match guarded(|| p.signed_by(&sh.issuer, &sh.k_ed.kp)) {
+			let (iss, ikey) = issuer_of(t, sh);
+			signer_spki = ikey.info.spki.clone();
+			match guarded(|| p.signed_by(iss, &ikey.kp)) {
 				Outcome::Ok(c) => (Ok(c.der().to_vec()), true, true),
 				Outcome::Err(e) => (Err(e), true, true),
 				Outcome::Panic(m) => (Err(format!("panic {}", m)), true, true),
@@ -179,8 +240,15 @@ pub fn gen(t: &str, sh: &Shared, tid: u64, pid: u32, phase: &str, case: &str, ev
 	let ev = match der {
 		Ok(d) => {
 			let tbs = project::embedded_tbs(&d).unwrap_or_default();
+			// the signature is the given signing key's (OpenSSL, over the embedded to-be-signed bytes)
+			let akind = match kind {
+				"csr" => "csr",
+				"crl" => "crl",
+				_ => "cert",
+			};
+			let sig_ok = if verify { project::artefact(akind, &d, &signer_spki)["sigOk"]["openssl"].as_str().unwrap_or("fail").to_string() } else { "na".to_string() };
 			json!({"op": "Gen", "case": case, "be": crate::BACKEND, "args": args, "out": "Ok", "err": "",
-				"obs": {"tbs": sha_hex(&tbs), "full": sha_hex(&d), "paramsUnchanged": params_ok, "sharedUnchanged": shared_ok, "len": d.len()}})
+				"obs": {"tbs": sha_hex(&tbs), "full": sha_hex(&d), "paramsUnchanged": params_ok, "sharedUnchanged": shared_ok, "len": d.len(), "sigOk": sig_ok}})
 		},
 		Err(e) => json!({"op": "Gen", "case": case, "be": crate::BACKEND, "args": args, "out": if e.starts_with("panic") { "Panic" } else { "Err" }, "err": e, "obs": {}}),
 	};
@@ -238,7 +306,10 @@ pub fn interfere(x: &str, sh: &Shared, rng: &mut Rng) {
 	});
 }
 
-pub const TEMPLATES: [&str; 8] = ["cert-self/1", "cert-self/2", "cert-issued/1", "cert-issued/2", "csr/1", "csr/2", "crl/1", "crl/2"];
+pub const TEMPLATES: [&str; 17] = ["cert-self/r3", "cert-self/e0", "crl/e0", "cert-self/1", "cert-self/2", "cert-issued/1", "cert-issued/2", "csr/1", "csr/2", "crl/1", "crl/2",
+	"cert-issued/n2", "cert-issued/k2", "cert-issued/ra", "cert-issued/rb", "crl/n2", "crl/k2"];
+/// cheap templates (Ed25519 signers) that alternate between issuers differing in one component: hammered by the hot phase
+pub const HOT: [&str; 6] = ["cert-issued/1", "cert-issued/n2", "cert-issued/k2", "crl/1", "crl/n2", "crl/k2"];
 
 /// child: sessions (from file) + threads; writes events to `out_path`
 pub fn child(dir: &str, sessions_path: &str, out_path: &str, threads: usize, gens: usize) {
@@ -270,7 +341,7 @@ pub fn child(dir: &str, sessions_path: &str, out_path: &str, threads: usize, gen
 		handles.push(std::thread::spawn(move || {
 			let mut ev = Vec::new();
 			for g in 0..gens {
-				let tpl = TEMPLATES[trng.below(8) as usize];
+				let tpl = TEMPLATES[trng.below(TEMPLATES.len() as u64) as usize];
 				gen(tpl, &sh, t as u64 + 1, pid, "threads", &format!("threads/{}/{}", t, g), &mut ev);
 			}
 			all.lock().unwrap().extend(ev);
@@ -280,6 +351,41 @@ pub fn child(dir: &str, sessions_path: &str, out_path: &str, threads: usize, gen
 		let _ = h.join();
 	}
 	events.extend(all.lock().unwrap().drain(..));
+	// phase 3: the same threads hammer generations that alternate between issuers differing in one component
+	// (name only / key only); identical observations are recorded once, with their count
+	{
+		let hot_gens = gens * 40;
+		let all: Arc<Mutex<std::collections::BTreeMap<String, (Value, u64)>>> = Arc::new(Mutex::new(Default::default()));
+		let mut handles = Vec::new();
+		for t in 0..threads {
+			let sh = sh.clone();
+			let all = all.clone();
+			handles.push(std::thread::spawn(move || {
+				let mut local: std::collections::BTreeMap<String, (Value, u64)> = Default::default();
+				let mut ev = Vec::new();
+				for g in 0..hot_gens {
+					let tpl = HOT[(g + t) % HOT.len()];
+					gen_opt(tpl, &sh, 0, pid, "hot", "hot", &mut ev, false);
+					if let Some(e) = ev.pop() {
+						let key = format!("{}|{}|{}", e["args"]["regKey"], e["out"], e["obs"]);
+						local.entry(key).or_insert((e, 0)).1 += 1;
+					}
+				}
+				let mut a = all.lock().unwrap();
+				for (k, (e, c)) in local {
+					a.entry(k).or_insert((e, 0)).1 += c;
+				}
+			}));
+		}
+		for h in handles {
+			let _ = h.join();
+		}
+		for (i, (_, (mut e, c))) in std::mem::take(&mut *all.lock().unwrap()).into_iter().enumerate() {
+			e["args"]["count"] = json!(c);
+			e["case"] = json!(format!("hot/{}/{}", pid, i));
+			events.push(e);
+		}
+	}
 	let mut out = Out::create(out_path);
 	for e in events.iter_mut() {
 		e["i"] = json!(0);
